@@ -1,5 +1,6 @@
 import PfVerif.Proofs.C06Min
 import PfVerif.Proofs.C06DepthEq
+import PfVerif.Proofs.C06OnceDir
 import PfVerif.Generated.Tables
 /-! # C06 — depression filling yields the minimal spill surface draining all cells
 
@@ -403,18 +404,22 @@ theorem fillModelE_no_elvMax (pits : Option (List Nat)) (minMode : Bool) :
 Proved for all inputs: the invariants (`fillDepth_invariants`, `fillModelDepth_safe`), the measure
 (`fillDepth_measure`), termination given a bound on the number of too-deep events
 (`fillModelDepth_terminates_of_events`), coincidence with the unlimited fill when no depression
-reaches `max_depth` (`fillModelDepth_eq_unlimited`).
+reaches `max_depth` (`fillModelDepth_eq_unlimited`), and - closing the former open item - the lemma
+`too_deep_once` (every cell has at most one too-deep event per run) with its consequence
+`fillModelDepth_total`: the loop ends with an empty heap within `fuelD = 12 n + 1` pops on EVERY input
+(any seeds, any nodata mask, any `max_depth`, also negative), and more fuel changes nothing
+(`fillLoopD_fuel_irrelevant`).
 
-NOT proved (the one missing lemma for unconditional termination):
-
-    theorem too_deep_once : every cell has at most one too-deep event in a run
-      (fillModelDepth ... = .ok (f, d8, fin, ev, evc) → ∀ c, evc[c]! ≤ 1, hence ev ≤ n)
-
-It holds in every explored case (the driver reports `model.evmax`; exhaustive 3x3 over 3 levels and
-1-D profiles; > 10^5 random rasters) and together with `fillModelDepth_terminates_of_events` gives
-`fin = true` within `fuelD = 12 n + 1` pops. Why it is hard: pop levels are no longer monotone (a
-too-deep cell is pushed below the current level), cells are re-opened, popped and pushed several
-times; the argument needs "a too-deep event only hits a cell that was never done before". -/
+Why `too_deep_once` holds although pop levels are not monotone and cells are re-opened, popped and
+pushed several times (`Proofs/C06Once.lean`): call a cell *touched* once it is queued. Invariant:
+(a) a touched cell has all valid cells of its window touched, or still has a heap entry, or is being
+popped right now; (b) a touched cell that is not done (= re-opened) lies in the window of some heap
+entry whose level is not too deep for it, or is still to be visited by the current pop at a level that
+is not too deep for it. Heap entries have levels `elev <= z`, `z - elev` not too deep, and the popped
+level is the minimum, so by (b) a visit of a re-opened cell is never too deep: a too-deep event only
+hits an untouched cell, and touches it. (a) is what re-establishes (b) when an event re-opens done
+cells: such a cell is next to the (untouched) event cell, so it still has its own heap entry - or is
+the popped cell itself. -/
 
 /-- **the measure of the depth-limited loop**: `potD` = heap size + number of cells that are not
 done. Every iteration of `while len(q) > 0` lowers it by at least one, except that each too-deep
@@ -436,6 +441,45 @@ theorem fillModelDepth_terminates_of_events {pits : Option (List Nat)} {minMode 
     (h : fillModelDepth G conn elev nod pits minMode elvMax md = .ok (f, d8, fin, ev, evc))
     (hev : ev ≤ G.n) : fin = true :=
   fillModelDepth_fin_of_events hN hE h hev
+
+/-- **`too_deep_once`**: in every run of the depth-limited fill every cell has at most one too-deep
+event, hence there are at most `n` events. No hypothesis on seeds (user outlets may even be nodata
+cells), on `max_depth` (any integer) or on the result (`fin` is not assumed). -/
+theorem too_deep_once {pits : Option (List Nat)} {minMode : Bool} {elvMax : Option Int} {md : Int}
+    {fin : Bool} {ev : Nat} {evc : Array Nat} (hN : nod.size = G.n) (hE : elev.size = G.n)
+    (h : fillModelDepth G conn elev nod pits minMode elvMax md = .ok (f, d8, fin, ev, evc)) :
+    (∀ c : Nat, evc[c]! ≤ 1) ∧ ev ≤ G.n :=
+  fillModelDepth_once hN hE h
+
+/-- the same for every intermediate state (after any number `fuel` of pops, from any seed set): at
+most one event per cell; events + never-queued cells `≤ n` (an event always hits a never-queued cell) -/
+theorem too_deep_once_state {md : Int} {seed : Array Bool} (fuel : Nat) (hN : nod.size = G.n)
+    (hE : elev.size = G.n) (hS : seed.size = G.n) :
+    (∀ c : Nat, (fillLoopD G conn elev nod md fuel (initStateD G elev nod seed)).evc[c]! ≤ 1) ∧
+    (fillLoopD G conn elev nod md fuel (initStateD G elev nod seed)).ev +
+      unq G.n (fillLoopD G conn elev nod md fuel (initStateD G elev nod seed)).queued ≤ G.n :=
+  too_deep_once_loop fuel hN hE hS
+
+/-- **`fillModelDepth_total`: `fill_depressions(max_depth >= 0)` terminates on every input**: whenever
+the model returns, the loop has ended with an empty heap within its fuel `fuelD = 12 n + 1` (the model
+never runs out of fuel); the only other outcomes are the two errors of the outlet selection
+(`ValueError` for `elv_max`, `IndexError` for `outlets='min'` without candidates) -/
+theorem fillModelDepth_total {pits : Option (List Nat)} {minMode : Bool} {elvMax : Option Int} {md : Int}
+    {fin : Bool} {ev : Nat} {evc : Array Nat} (hN : nod.size = G.n) (hE : elev.size = G.n)
+    (h : fillModelDepth G conn elev nod pits minMode elvMax md = .ok (f, d8, fin, ev, evc)) :
+    fin = true :=
+  fillModelDepth_terminates_of_events hN hE h (too_deep_once hN hE h).2
+
+/-- the fuel is irrelevant: with any fuel `≥ 12 n + 1` the loop ends with an empty heap and in the
+same state, i.e. the fuelled model *is* the `while len(q) > 0` loop -/
+theorem fillLoopD_fuel_irrelevant {md : Int} {seed : Array Bool} (hN : nod.size = G.n)
+    (hE : elev.size = G.n) (hS : seed.size = G.n) (fuel : Nat) (hf : fuelD G ≤ fuel) :
+    (fillLoopD G conn elev nod md fuel (initStateD G elev nod seed)).q = [] ∧
+    fillLoopD G conn elev nod md fuel (initStateD G elev nod seed) =
+      fillLoopD G conn elev nod md (fuelD G) (initStateD G elev nod seed) := by
+  refine ⟨fillLoopD_empty hN hE hS fuel hf, ?_⟩
+  obtain ⟨k, rfl⟩ : ∃ k, fuel = fuelD G + k := ⟨fuel - fuelD G, by omega⟩
+  exact fillLoopD_stable _ _ (fillLoopD_empty hN hE hS _ (Nat.le_refl _)) k
 
 /-- **invariants of every state of every depth-limited run** (after any number of pops): nodata cells
 are never pushed (no heap entry is a nodata cell), never queued, never re-opened, keep their elevation
@@ -472,6 +516,117 @@ theorem fillModelDepth_eq_unlimited {pits : Option (List Nat)} {minMode : Bool} 
       .ok (f0, d80, true, 0, Array.replicate G.n 0) :=
   fillModelDepth_eq_unlimited_aux hN hE hpits h0 hdepth
 
+/-! #### what the depth option guarantees
+
+Intended full statement (brief): *cells of depressions deeper than `max_depth` keep their original
+elevation, and every other guarantee of `fill_model_cert` holds on the remaining cells*, i.e. with
+`seed' = outlets ∪ too-deep cells`
+
+    theorem fillModelDepth_cert : fillModelDepth ... = .ok (f, d8, fin, ev, evc) →
+      ∃ rk, fillCertOk G conn elev nod seed' f d8 rk = true
+
+This is FALSE for the code as it is (and for its model), see the two `example`s below - reported as a
+finding, not worked around:
+* the popped cell `i0` is re-opened when a too-deep neighbour is met at an offset BEFORE `(0, 0)` in the
+  neighbour loop (NW, N, NE, W); the loop then visits `i0` itself, marks it done and writes the code
+  `_us[1, 1] = 0`: `i0` ends as a pit although it is neither an outlet nor too deep (and it may even
+  be raised). With the too-deep neighbour at a later offset (E, SW, S, SE) `i0` drains into it instead:
+  the output is not mirror-symmetric.
+* a filled cell that was re-directed can stay raised above `max (elev c) (f (ds c))`.
+What IS proved for every input (`fillModelDepth_guarantees_partial`): termination, at most one event
+per cell, nodata untouched, nothing lowered, nothing raised by `max_depth` or more, and the outlets and
+the too-deep cells (the local minima whose pour point lies `max_depth` or more above them) keep their
+input elevation, and every direction goes to an allowed valid neighbour. Missing for more (never
+uphill along `d8`, loop-freeness - both hold in every explored case): an order argument for the
+non-monotone pop sequence; not attempted. -/
+
+/-- **the outlets and the too-deep cells keep their input elevation**: a cell that had its too-deep
+event is never filled afterwards although it may be re-opened and visited again (every later visit
+comes from a level at or below its own elevation); the same for the outlets. No hypothesis on the
+outlets or on `max_depth`. -/
+theorem fillModelDepth_deep_cells_keep {pits : Option (List Nat)} {minMode : Bool} {elvMax : Option Int}
+    {md : Int} {fin : Bool} {ev : Nat} {evc : Array Nat} (hN : nod.size = G.n) (hE : elev.size = G.n)
+    (h : fillModelDepth G conn elev nod pits minMode elvMax md = .ok (f, d8, fin, ev, evc)) :
+    ∃ seed, seedsOfE G conn elev nod pits minMode elvMax = .ok seed ∧
+      ∀ c, c < G.n → (seed[c]! = true ∨ 1 ≤ evc[c]!) → f[c]! = elev[c]! :=
+  fillModelDepth_keep hN hE h
+
+/-- the same in every intermediate state, and cells never queued are untouched -/
+theorem fillDepth_keep_state {md : Int} {seed : Array Bool} (fuel : Nat) (hN : nod.size = G.n)
+    (hE : elev.size = G.n) (hS : seed.size = G.n) (c : Nat) (hc : c < G.n)
+    (h : seed[c]! = true ∨ 1 ≤ (fillLoopD G conn elev nod md fuel (initStateD G elev nod seed)).evc[c]! ∨
+      (fillLoopD G conn elev nod md fuel (initStateD G elev nod seed)).queued[c]! = false) :
+    (fillLoopD G conn elev nod md fuel (initStateD G elev nod seed)).f[c]! = elev[c]! :=
+  pin_keep_loop fuel hN hE hS c hc h
+
+/-- **every direction of the depth-limited fill goes to an allowed valid neighbour**: a valid cell with
+a non-zero code decodes (`core_d8` decoding `dsOf`) to a different valid cell that is its neighbour in
+the chosen connectivity (the cell from whose pop it was last visited) -/
+theorem fillModelDepth_step_allowed {pits : Option (List Nat)} {minMode : Bool} {elvMax : Option Int}
+    {md : Int} {fin : Bool} {ev : Nat} {evc : Array Nat} (hN : nod.size = G.n) (hE : elev.size = G.n)
+    (hpits : ∀ l, pits = some l → ∀ p, p ∈ l → p < G.n → nod[p]! = false)
+    (h : fillModelDepth G conn elev nod pits minMode elvMax md = .ok (f, d8, fin, ev, evc))
+    (c : Nat) (hc : c < G.n) (hn : nod[c]! = false) (h0 : d8[c]! ≠ 0) :
+    Nbr G conn nod c (dsOf G d8 c) :=
+  fillModelDepth_step_nbr hN hE hpits h c hc hn h0
+
+/-- **the guarantees of `fill_depressions(max_depth >= 0)` that hold on every input** (partial, see
+above): the run terminates (`fin`), every cell is too deep at most once, nodata cells are untouched and
+coded 247, valid cells are never coded 247, no cell is lowered, no cell is raised by `max_depth` or
+more, outlets and too-deep cells are not raised at all, every direction goes to an allowed valid
+neighbour. -/
+theorem fillModelDepth_guarantees_partial {pits : Option (List Nat)} {minMode : Bool}
+    {elvMax : Option Int} {md : Int} {fin : Bool} {ev : Nat} {evc : Array Nat}
+    (hN : nod.size = G.n) (hE : elev.size = G.n)
+    (hpits : ∀ l, pits = some l → ∀ p, p ∈ l → p < G.n → nod[p]! = false)
+    (h : fillModelDepth G conn elev nod pits minMode elvMax md = .ok (f, d8, fin, ev, evc)) :
+    fin = true ∧ ev ≤ G.n ∧
+    ∃ seed, seedsOfE G conn elev nod pits minMode elvMax = .ok seed ∧
+      ∀ c, c < G.n →
+        evc[c]! ≤ 1 ∧
+        (nod[c]! = true → f[c]! = elev[c]! ∧ d8[c]! = 247) ∧ (nod[c]! = false → d8[c]! ≠ 247) ∧
+        elev[c]! ≤ f[c]! ∧ (f[c]! = elev[c]! ∨ f[c]! - elev[c]! < md) ∧
+        ((seed[c]! = true ∨ 1 ≤ evc[c]!) → f[c]! = elev[c]!) ∧
+        (nod[c]! = false → d8[c]! ≠ 0 → Nbr G conn nod c (dsOf G d8 c)) := by
+  obtain ⟨h1, h2⟩ := too_deep_once hN hE h
+  obtain ⟨seed, hs, hk⟩ := fillModelDepth_deep_cells_keep hN hE h
+  refine ⟨fillModelDepth_total hN hE h, h2, seed, hs, fun c hc => ?_⟩
+  obtain ⟨a, b, d, e⟩ := fillModelDepth_invariants hN hE hpits h c hc
+  exact ⟨h1 c, a, b, d, e, hk c hc, fillModelDepth_step_allowed hN hE hpits h c hc⟩
+
+-- non-vacuity of `fillModelDepth_deep_cells_keep`: the staircase above (cells 1, 2, 3 are too deep, are
+-- re-opened and visited again, and keep 6, 3, 0); and a raster where a shallow dent (cell 9: 4 -> 5) IS
+-- filled while the deep cell 6 (elevation 0, pour point 5, max_depth 3) is not
+example : (match fillModelDepth ⟨3, 5⟩ 8 #[9, 9, 9, 9, 9, 5, 0, 5, 5, 4, 9, 9, 9, 9, 9] (Array.replicate 15 false)
+      (some [5]) false none 3 with
+    | .ok (f, _, fin, ev, evc) => (f.toList, fin, ev, evc.toList)
+    | .error _ => ([], false, 0, [])) =
+    ([9, 9, 9, 9, 9, 5, 0, 5, 5, 5, 9, 9, 9, 9, 9], true, 1,
+     [0, 0, 0, 0, 0, 0, 1, 0, 0, 0, 0, 0, 0, 0, 0]) := by decide +kernel
+
+-- non-vacuity of `fillModelDepth_step_allowed` on the regression raster's output (nodata at cell 6)
+example : ∀ c, c < 15 →
+    (#[false, false, false, false, false, false, true, false, false, false, false, false, false, false, false] : Array Bool)[c]! = false →
+    (#[0, 2, 4, 8, 16, 64, 247, 0, 16, 32, 64, 128, 64, 32, 32] : Array Nat)[c]! ≠ 0 →
+    Nbr ⟨3, 5⟩ 8 #[false, false, false, false, false, false, true, false, false, false, false, false, false, false, false] c
+      (dsOf ⟨3, 5⟩ #[0, 2, 4, 8, 16, 64, 247, 0, 16, 32, 64, 128, 64, 32, 32] c) := by decide +kernel
+
+-- FINDING (refutes the intended full statement): 1x3 raster [0, 1, 4], outlet = cell 2, max_depth 4.
+-- Cell 0 is too deep (4 - 0 >= 4) when cell 1 (filled 1 -> 4) is popped; it precedes the centre in the
+-- neighbour loop, so cell 1 is re-opened and visits itself: it stays raised to 4 AND ends as a pit (code 0)
+-- next to the lower cell 0. The certificate for the outlets {0, 2} rejects the output (cell 1 is neither an
+-- outlet nor has a direction, so it would have to be untouched; this clause does not involve the rank).
+-- The real code returns the same: fill_depressions(np.array([[0., 1., 4.]]), idxs_pit=[2], max_depth=4.0)
+-- = ([[0, 4, 4]], [[0, 0, 0]]); the mirror image [[4, 1, 0]], idxs_pit=[0] gives ([[4, 1, 0]], [[0, 1, 0]]).
+example : (match fillModelDepth ⟨1, 3⟩ 8 #[0, 1, 4] (Array.replicate 3 false) (some [2]) false none 4 with
+    | .ok (f, d8, fin, ev, evc) => (f.toList, d8.toList, fin, ev, evc.toList)
+    | .error _ => ([], [], false, 0, [])) = ([0, 4, 4], [0, 0, 0], true, 1, [1, 0, 0]) := by decide +kernel
+example : fillCertOk ⟨1, 3⟩ 8 #[0, 1, 4] (Array.replicate 3 false) #[true, false, true]
+    #[0, 4, 4] #[0, 0, 0] (rankOf ⟨1, 3⟩ #[0, 0, 0]) = false := by decide +kernel
+example : (match fillModelDepth ⟨1, 3⟩ 8 #[4, 1, 0] (Array.replicate 3 false) (some [0]) false none 4 with
+    | .ok (f, d8, fin, ev, evc) => (f.toList, d8.toList, fin, ev, evc.toList)
+    | .error _ => ([], [], false, 0, [])) = ([4, 1, 0], [0, 1, 0], true, 1, [0, 0, 1]) := by decide +kernel
+
 -- non-vacuity: the regression raster of /repo 463c4a4 (nodata at cell 6 next to the depression at
 -- cell 7, single outlet 0, max_depth 1): cell 7 is too deep once, stays at its elevation and becomes
 -- a pit (code 0); the nodata cell keeps 247; with max_depth 10 the result is the unlimited fill
@@ -490,6 +645,20 @@ example : (match fillModelDepth ⟨3, 5⟩ 8 #[0, 5, 5, 5, 5, 5, 0, 1, 5, 5, 5, 
     | .error _ => ([], [], false, 0)) =
     ([0, 5, 5, 5, 5, 5, 0, 5, 5, 5, 5, 5, 5, 5, 5],
      [0, 16, 16, 16, 16, 64, 247, 32, 32, 32, 64, 32, 64, 32, 32], true, 0) := by decide +kernel
+-- too_deep_once / fillModelDepth_total, non-vacuity: a 1x5 staircase descending from the single outlet
+-- (cell 0) with max_depth 1: three cells are too deep one after the other (each re-opens the previous
+-- one, which is then visited again from below and NOT too deep a second time); all of 9, 6, 3 end up
+-- draining into the pit 0 at the far end; the run ends with an empty heap
+example : (match fillModelDepth ⟨1, 5⟩ 8 #[9, 6, 3, 0, 9] (Array.replicate 5 false) (some [0]) false none 1 with
+    | .ok (f, d8, fin, ev, evc) => (f.toList, d8.toList, fin, ev, evc.toList)
+    | .error _ => ([], [], false, 0, [])) =
+    ([9, 6, 3, 0, 9], [1, 1, 1, 0, 16], true, 3, [0, 1, 1, 1, 0]) := by decide +kernel
+-- two adjacent deep cells hit in the same neighbour loop (the second event re-opens the first cell)
+example : (match fillModelDepth ⟨3, 4⟩ 8 #[6, 5, 5, 5, 5, 0, 0, 5, 5, 5, 5, 5] (Array.replicate 12 false) none false none 2 with
+    | .ok (_, d8, fin, ev, evc) => (d8.toList, fin, ev, evc.toList)
+    | .error _ => ([], false, 0, [])) =
+    ([2, 4, 8, 8, 1, 0, 16, 16, 128, 64, 32, 32], true, 2, [0, 0, 0, 0, 0, 1, 1, 0, 0, 0, 0, 0]) := by
+  decide +kernel
 -- elv_max = 3 keeps only the notch (cell 3) as outlet; elv_max = 2 leaves none: ValueError
 example : (match fillModelE ⟨3, 3⟩ 8 #[5, 4, 5, 3, 1, 5, 5, 5, 5] (Array.replicate 9 false) none false (some 3) with
     | .ok (f, d8, fin) => (f.toList, d8.toList, fin)
